@@ -69,7 +69,8 @@ class Run:
         self.axioms = {}
         self.rundir = os.path.join(BUILD, "run", pid)
         self.nreplay = 0
-        self.known = [k for k in load_known() if k.get("property") == pid and k.get("status", "open") == "open"]
+        self.known = [k for k in load_known() if (k.get("property") == pid or pid in k.get("also_properties", []))
+                      and k.get("status", "open") == "open"]
         self.proof_broken = False
 
     # ---------------------------------------------------------------- utilities
